@@ -304,6 +304,10 @@ theorem runF_K (hac : afterClose a0 = false) (P : Prog) (x0 : FCfg) (evs : List 
 theorem initX_K (a0 : Arm) (nf : Nat) (plan : Plan) : K a0 (initX nf plan (some a0)) := by
   refine ⟨⟨fun b hb => by cases hb; exact ⟨rfl, rfl⟩, fun hf => by cases hf⟩, rfl, Or.inr ⟨Inv2w.of_inv2 (inv2_init nf), fun _ hf => by cases hf⟩⟩
 
+theorem runX_armed (P : Prog) (nf : Nat) (plan : Plan) (a : Arm) (evs : List Ev) :
+    runX P (initX nf plan (some a)) evs = runF P (initX nf plan (some a)) evs := rfl
+
+
 end
 end FP
 end PMF
